@@ -42,6 +42,16 @@ struct position_t
 };
 class symbol_t;
 class expression_t;
+/* std::optional<uint32_t> as frame_t::get_index_of returns it */
+struct verif_opt_index
+{
+    bool has;
+    uint32_t v;
+    verif_opt_index(): has(false), v(0) {}
+    bool has_value() const { return has; }
+    uint32_t operator*() const { __CPROVER_assert(has, "stub: optional dereferenced only when it has a value"); return v; }
+    uint32_t value() const { __CPROVER_assert(has, "stub: optional dereferenced only when it has a value"); return v; }
+};
 class frame_t;
 class type_t
 {
@@ -188,6 +198,15 @@ public:
         return symbol_t(verif_frames[which - 1].sym[i]);
     }
     uint32_t get_size() const { return (uint32_t)verif_frames[which - 1].nsym; }
+    /* real: the name -> index mapping of this frame only; a later symbol of the same name overwrites the entry (add()) */
+    verif_opt_index get_index_of(verif_name name) const
+    {
+        verif_opt_index r;
+        for (int i = 0; i < VERIF_FRAME_CAP; i++) {
+            if (i < verif_frames[which - 1].nsym && verif_symtab[verif_frames[which - 1].sym[i]].name == name) { r.has = true; r.v = (uint32_t)i; }
+        }
+        return r;
+    }
     bool contains(verif_name name) const /* this frame only (real: get_index_of(name).has_value()) */
     {
         for (int i = 0; i < VERIF_FRAME_CAP; i++) {
